@@ -102,5 +102,7 @@ Proof.
   - unfold valid_classes; rewrite E; destruct c; reflexivity.
 Qed.
 
-Lemma meta_valid_atol_eq : meta_valid_atol == 1 # 1000000.
-Proof. vm_compute. reflexivity. Qed.
+(** the tolerance of meta_valid is whatever the source says (the property names no number); the proofs only need it to
+    be non-negative *)
+Lemma meta_valid_atol_nonneg : (0 <= meta_valid_atol)%Q.
+Proof. vm_compute. discriminate. Qed.
